@@ -711,6 +711,11 @@ class PeerConnection(DataConnection):
         :param callback: optional callback that gets called each time a chunk
             of data is received
         """
+        # Nothing (more) to receive (empty file or the local file is already
+        # complete): the peer has no data to send and waits for us to close
+        if filesize <= 0:
+            return
+
         bytes_received = 0
         while True:
             bytes_to_read = await self.download_rate_limiter.take_tokens()
